@@ -40,6 +40,9 @@ def run(ctx, sess):
     ctx.rule('C15.14', 'the summary mean a constant block is rebuilt from is the stored code: the sample converter that feeds the summaries rescales nothing, whatever the fixed-point position (shared with C02.10) - reconstruction rounds the mean back to the sample value')
     from . import c02 as _src_c02
     _relay(ctx, sess, _src_c02.run, {'C02.10': 'C15.14'}, minimum=1)
+    ctx.rule('C15.15', 'the summary an omitted block is rebuilt from is the one that belongs to the cached index: the level-1 cache is marked valid only after both chunks were read (shared with C04.9) - after a failed summary read the retry must not find the previous summary behind a fresh tag')
+    from . import c04 as _src_c04
+    _relay(ctx, sess, _src_c04.run, {'C04.9': 'C15.15'}, only_functions=('jls_core_rd_fsr_level1', 'jls_core_rd_fsr_data0'), minimum=1)
     try:
         const_reference_rule(ctx, P)
     except AnalysisBroken as ex:
